@@ -41,8 +41,9 @@ def declare(reg, eng):
     reg.contract("AsyncFileLock.__aexit__", params=["self"], modifies=[], effect="joblock.exit")
     reg.contract("Listener.job_state", params=["self", "job"], modifies=[], raises={"Exception": {"when": [], "modifies": []}})
     reg.contract("Listener.job_submitted", params=["self", "job"], modifies=[], raises={"Exception": {"when": [], "modifies": []}})
-    reg.contract("Job.add_notification_server", params=["self", "server"], modifies=["fs"],
-                 raises={"Exception": {"when": [], "modifies": ["fs"]}})
+    KEEP = "implies(old(exists_path(job_donepath(self))), exists_path(job_donepath(self)))"     # (it writes one file of the job directory)
+    reg.contract("Job.add_notification_server", params=["self", "server"], types={"self": "Job"}, modifies=["fs"], ensures=[KEEP],
+                 raises={"Exception": {"when": [], "modifies": ["fs"], "ensures": [KEEP]}})
     reg.contract("Job.aio_run", params=["self"], types={"self": "Job"}, returns="ProcOrState", awaits=True, effect="aio_run",
                  modifies=["fs", "self._process"], raises={"Exception": {"when": [], "modifies": ["fs"], "effect": "aio_run"}})
     reg.contract("Job.aio_process", params=["self"], types={"self": "Job"}, returns="opt:Process", awaits=True, effect="aio_process",
@@ -96,10 +97,10 @@ def declare(reg, eng):
                      "not isnone(result)",
                      # starting a job does not make it final behind the back of aio_submit (which writes the returned state)
                      (("C06", "C07"), R_READY),
-                     ("C06", "implies(effect('aio_code'), (result == JobState.DONE) == (effect_result('aio_code') == 0 or "
+                     (("C04", "C06", "C07"), "implies(effect('aio_code'), (result == JobState.DONE) == (effect_result('aio_code') == 0 or "
                              "(isnone(effect_result('aio_code')) and at_effect('aio_code', isfile(job_donepath(job)) or (isfile(job_failedpath(job)) and parses_int(fs_read(job_failedpath(job))) "
                              "and int(fs_read(job_failedpath(job))) == 0)))))"),
-                     ("C06", "implies(result == JobState.DONE and not effect('aio_code'), effect('aio_run') and effect_result('aio_run') == JobState.DONE)"),
+                     (("C04", "C06", "C07"), "implies(result == JobState.DONE and not effect('aio_code'), effect('aio_run') and effect_result('aio_run') == JobState.DONE)"),
                      ("C06", "implies(not effect('aio_run'), result == JobState.WAITING)"),
                      ("C05", "effect_count('aio_run') <= 1"),
                      ("C09", "effect_count('locks.exit') == 1"),
@@ -140,7 +141,9 @@ def declare(reg, eng):
     # rely at every await of aio_submit (what other coroutines / callbacks may do to *this* job):
     #  R-final: a finished state of the job is not changed by others  [guaranteed by Job.dependencychanged (C06 clause),
     #           the only foreign writer of Job.state: global-frame check]
-    RELY = ["implies(old(job.state).finished(), job.state == old(job.state))", R_READY,
+    # R-marker (environment): nobody removes the success marker of a job while a scheduler works on it
+    R_MARKER = "implies(old(exists_path(job_donepath(job))), exists_path(job_donepath(job)))"
+    RELY = ["implies(old(job.state).finished(), job.state == old(job.state))", R_READY, R_MARKER,
             "job.identifier == old(job.identifier)"]
     eng.load("Scheduler.aio_submit", "scheduler/base.py")
     reg.contract("Scheduler.aio_submit", unreachable_ok=['return JobState.ERROR', 'if state is None:   [never true]'], params=["self", "job"], types={"self": "Scheduler", "job": "Job"},
@@ -150,6 +153,10 @@ def declare(reg, eng):
                  ensures=[
                      ("C06", "result == JobState.DONE or result == JobState.ERROR"),
                      ("C06", "result == job.state"),
+                     # a job whose success marker already exists ends DONE, whatever happened to its dependencies meanwhile
+                     # (stated from the moment the job has been linked into the experiment index: the writes before that point
+                     #  touch the index only, but path disjointness is outside the path theory)
+                     ("C06", "implies(at_effect('symlink_to', exists_path(job_donepath(job))), result == JobState.DONE)"),
                      ("C06", "effect_count('write:unfinishedJobs') == 1"),
                      ("C07", "implies(result != JobState.DONE, lookup(self.xp.failedJobs, job.identifier) is job)"),
                      ("C06", "implies(result == JobState.DONE, not haskey(self.xp.failedJobs, job.identifier) or "
@@ -166,14 +173,15 @@ def declare(reg, eng):
                      "write:state": [(("C06", "C07"), "implies(_arg0.state.finished(), _arg1.finished() or _arg1 == JobState.RUNNING)"),
                                      # DONE is only ever written on evidence of success: the success marker exists, or the awaited
                                      # process returned 0, or aio_start reported DONE (a missing / unknown exit code is a failure)
-                                     (("C06", "C07"), "implies(_arg1 == JobState.DONE, exists_path(job_donepath(_arg0)) or "
+                                     (("C04", "C06", "C07"), "implies(_arg1 == JobState.DONE, exists_path(job_donepath(_arg0)) or "
                                                       "(effect_here('aio_code') and effect_result('aio_code') == 0) or "
                                                       "(effect_here('aio_start') and effect_result('aio_start') == JobState.DONE))")],
                  },
                  raises={"Exception": {"when": []}},
                  interference={"shared": SHARED, "rely": RELY, "guarantee": []},
                  modifies=None, track_writes=["unfinishedJobs", "state"],
-                 loops={"dependency#1": {"invariants": [
+                 loops={"while": {"invariants": ["implies(at_effect('symlink_to', exists_path(job_donepath(job))), job.state == JobState.DONE)"]},
+                        "dependency#1": {"invariants": [
                             # registration never undercounts: every dependency not yet examined is still counted as unsatisfied
                             # (so the counter cannot reach 0 - and the job become READY - before all of them were examined)
                             "job.unsatisfied >= length(job.dependencies) - _i"]},
